@@ -65,6 +65,15 @@ def obligations(tier):
                       timeout=t if tier == 'quick' else 900, functions=F, stubs=STUBS, twin=False,
                       bounds='symbolic dv, sv, mv, parent dv in N; three operations in one descriptor transaction: these two, then ANY of '
                              'the 9 operations (symbolic)', claim=claim))
+    for kd, nm in enumerate(['entity_after_parent_removed', 'new_entity_after_parent_removed', 'descriptor_copy_after_parent_removed',
+                             'context_state_after_descriptor_updated', 'context_state_after_descriptor_removed',
+                             'context_state_handle_recreated_in_one_transaction.entity',
+                             'context_state_handle_recreated_in_one_transaction.classic']):
+        obs.append(Ob(f'C02.stale_object.{nm}', 'harness.C02', 'stale_object_after_removal', bind={'kind': kd}, timeout=t, functions=F,
+                      stubs=STUBS, bounds='object obtained before, first transaction removes / updates what it depends on, second '
+                                          'transaction writes it (kinds 5, 6: removal and re-creation in ONE transaction); dv, sv, mv, pdv in N',
+                      claim='rejected => nothing changed; accepted => every descriptor has a parent, every state a descriptor with the '
+                            'same DescriptorVersion, no counter decreased, a re-created handle continues its counter'))
     for kd, nm in enumerate(['descriptor_tx_single_state', 'metric_state_tx', 'context_tx', 'descriptor_tx_multi_state']):
         obs.append(Ob(f'C02.stale_entity.{nm}', 'harness.C02', 'stale_entity_write', bind={'kind': kd}, timeout=t, functions=F,
                       stubs=STUBS, bounds='entity copy with symbolic own counters ev <= dv, esv <= sv (any staleness); dv, sv, mv in N',
